@@ -33,15 +33,51 @@ def make_ctx(widx, tier, opts):
     return ctx
 
 
+from hypothesis import strategies as st
+
+BUNDLE = "# BUNDLE two files: main program p.nano and module m.nano\n"
+
+
 def strategy(ctx):
-    return progen.programs(features=ctx.features, size=ctx.size)
+    # the second component asks for the two-file rendering: up to k functions (and all type definitions) are moved to a
+    # module that the main file imports; 0 = single file
+    return st.tuples(progen.programs(features=ctx.features, size=ctx.size), st.sampled_from([0, 0, 0, 1, 2, 3]))
+
+
+def render(case):
+    prog, k = case
+    if k:
+        sp = progen.split_program(prog, k)
+        if sp is not None:
+            main_text, mod_text, moved = sp
+            return BUNDLE + "#=== p.nano\n" + main_text + "#=== m.nano\n" + mod_text, moved
+    return progen.print_program(prog), None
+
+
+def unbundle(src):
+    body = src[len(BUNDLE):]
+    a = body.index("#=== p.nano\n") + len("#=== p.nano\n")
+    b = body.index("#=== m.nano\n")
+    return body[a:b], body[b + len("#=== m.nano\n"):]
 
 
 def compare(ctx, src, name="p.nano"):
     """Returns (verdict, detail, nat, vm); verdict in same / differ / both_rejected / inconclusive / stuck."""
-    p = runner.write_src(ctx.dir, name, src)
-    vm = ctx.tools.run_vm(p, ctx.dir)
-    nat = ctx.tools.run_native(p, ctx.dir)
+    if src.startswith(BUNDLE):
+        import shutil
+        d = os.path.join(ctx.dir, "two_" + name.replace(".nano", ""))
+        shutil.rmtree(d, ignore_errors=True)       # nanoc keeps compiled modules under ./obj: never reuse them across cases
+        os.makedirs(d)
+        main_text, mod_text = unbundle(src)
+        runner.write_src(d, "m.nano", mod_text)
+        p = runner.write_src(d, "p.nano", main_text)
+        vm = ctx.tools.run_vm(p, d)
+        nat = ctx.tools.run_native(p, d)
+        shutil.rmtree(d, ignore_errors=True)
+    else:
+        p = runner.write_src(ctx.dir, name, src)
+        vm = ctx.tools.run_vm(p, ctx.dir)
+        nat = ctx.tools.run_native(p, ctx.dir)
     if nat.cls == "inconclusive" or vm.cls == "inconclusive":
         return "inconclusive", "runner time-out", nat, vm
     if nat.cls == "rejected" and vm.cls == "rejected":
@@ -61,9 +97,13 @@ def compare(ctx, src, name="p.nano"):
     return "stuck", "%s / %s" % (nat.cls, vm.cls), nat, vm
 
 
-def run_case(ctx, prog, ev):
+def run_case(ctx, case, ev):
+    prog = case[0]
     ref = refeval.run(prog)
-    src = progen.print_program(prog)
+    src, moved = render(case)
+    if moved is not None:
+        ev.cls("two_files")
+        ev.cls("two_files_moved_functions", moved)
     for k, v in prog["excluded"].items():
         ev.exclude(k, v)
     if ref.kind != "normal":
@@ -85,8 +125,9 @@ def run_case(ctx, prog, ev):
         raise CaseFailure(detail, {"native": nat.brief(), "vm": vm.brief()})
 
 
-def describe_failure(ctx, prog, cf):
-    src = progen.print_program(prog)
+def describe_failure(ctx, case, cf):
+    prog = case[0]
+    src, _moved = render(case)
     open_sigs = [f.get("signature") for f in common.open_findings(PROP) if f.get("signature")]
     return {"src": src, "detail": cf.detail, "payload": cf.payload, "sigs": signatures.matching(prog, open_sigs)}
 
